@@ -392,3 +392,30 @@ def check(ctx):
                   pre_state={"set": "self._is_set = True"})
     check_factory(ctx, "R11-f", "Event", "create_event", "EventAdapter")
     check_async_with(ctx, "R11-f", "Condition")
+
+    # ---- R11-g the ownership test ("the current task holds the lock") compares TaskInfo snapshots taken at different times: their equality
+    # must rest on what is constant over a task's life - its id - and on nothing that changes (parent_id is rewritten when a started task is
+    # re-parented, names can be set), else the real holder is refused (or a stranger accepted)
+    TEST = "_core/_testing.py"
+    teq = ctx.fn("TaskInfo.__eq__", TEST)
+    par = [a.arg for a in teq.node.args.args]
+    rets = [r for r in own_walk(teq.node) if isinstance(r, ast.Return) and r.value is not None and norm(r.value) != "NotImplemented"]
+    ctx.need("R11-g", teq, "verdict returns in TaskInfo.__eq__", len(rets), 1)
+    for r in rets:
+        attrs = {x.attr for x in ast.walk(r.value) if isinstance(x, ast.Attribute) and isinstance(x.value, ast.Name) and x.value.id in par}
+        ok = attrs == {"id"} and isinstance(r.value, ast.Compare) and len(r.value.ops) == 1 and isinstance(r.value.ops[0], ast.Eq)
+        ctx.ob("R11-g", teq, "TaskInfo equality is equality of the task ids", ok, node=r, by=("self.id == other.id",),
+               detail="" if ok else f"`{norm(r)}` compares {sorted(attrs)}: fields other than `id` change during a task's life, so the task that holds the "
+                                    "Condition stops being recognised as its owner")
+    for cn, rel_, cd in [(k, r_, c_) for k, vs in ctx.repo.classes.items() for r_, c_ in vs]:
+        if rel_.endswith("_trio.py") or cn == "TaskInfo":
+            continue
+        if any(norm(b).split(".")[-1] == "TaskInfo" for b in cd.bases):
+            over = [m for m in cd.body if isinstance(m, (ast.FunctionDef, ast.AsyncFunctionDef)) and m.name in ("__eq__", "__ne__", "__hash__")]
+            ctx.ob("R11-g", teq, f"{cn} keeps TaskInfo's equality", not over, node=over[0] if over else cd, by=("no override",),
+                   detail="" if not over else f"{cn} overrides {over[0].name}")
+    ati = ctx.fn("AsyncIOTaskInfo.__init__", A)
+    tp = ati.node.args.args[1].arg
+    s_ = ctx.sites(ati, f"super().__init__(id({tp}), $*R)")
+    ctx.ob("R11-g", ati, "the id of a task snapshot is the identity of the task object", len(s_) == 1, by=("id(task)",),
+           detail="" if s_ else f"AsyncIOTaskInfo.__init__ does not pass `id({tp})` as the id")
